@@ -1984,12 +1984,21 @@ def proximal_huber(space, gamma):
             else:
                 norm = x.ufuncs.absolute()
 
-            mask = norm.ufuncs.less_equal(gamma + self.sigma)
-            out[mask] = gamma / (gamma + self.sigma) * x[mask]
+            # The proximal scales `x` pointwise: by `gamma / (gamma + sigma)`
+            # where `|x| <= gamma + sigma`, otherwise it shrinks `|x|` by
+            # `sigma`, i.e., scales by `1 - sigma / |x|`. Computing with
+            # arrays also covers vector fields and array-weighted spaces.
+            norm_arr = norm.asarray()
+            with np.errstate(divide='ignore', invalid='ignore'):
+                factor = np.where(norm_arr <= gamma + self.sigma,
+                                  gamma / (gamma + self.sigma),
+                                  1 - self.sigma / norm_arr)
 
-            mask.ufuncs.logical_not(out=mask)
-            sign_x = x.ufuncs.sign()
-            out[mask] = x[mask] - self.sigma * sign_x[mask]
+            if isinstance(self.domain, ProductSpace):
+                for out_i, x_i in zip(out, x):
+                    out_i[:] = factor * x_i.asarray()
+            else:
+                out[:] = factor * x.asarray()
 
             return out
 
